@@ -182,7 +182,7 @@ func checkClearsignWith(c ClearsignCase, kr openpgp.EntityList, armored bool, kr
 
 var specC11 = Register(&Spec[ClearsignCase]{
 	Prop: "C11", Name: "clearsign",
-	Rule:  "fault enumeration over clearsigned documents: C07 documents (1..3 paragraphs, LF) signed with clearsign.Encode by an RSA entity from a per-process pool; keyring = signer only / signer among others / others only / empty for the unmutated document; the same keyring OBJECT changed in place (to other keys, to no keys) between two reads of the same bytes - the second read must fail; then with the signer in the keyring EVERY single-byte substitution (XOR 0x01, XOR 0x20, 'A'), EVERY single-byte deletion, EVERY single-byte insertion ('A', blank, newline), EVERY truncation length, splices of a foreign paragraph before the armor, inside the signed text, between text and signature, inside the signature armor and after it, replacement of the signature by that of another key or of another text, and removal of the signature block; a second complete clearsigned document appended (same signer, other signer, a replay of the first); the binary signature truncated at 8 lengths or with one byte flipped (every byte in the thorough tier, every 7th in quick) and armored afresh with a correct checksum, alone and under an altered text; a good signature followed by junk, a NUL byte, a truncated or a damaged second signature inside a fresh armor; and for EVERY generated edit: if the armor then delivers the original signature plus further bytes, reading must fail; each character of the armor's CRC-24 line replaced by other printable characters, also with an armor-END look-alike or a whole second signed document behind the damaged block (must fail: the signature is damaged, as gpgv says too). Oracle: reading (ParagraphReader.All and Decoder.Decode) ends in an error, or succeeds with Signer() == signing entity in the keyring and paragraphs == those of the signed text; success with a nil signer is allowed only when the input no longer starts with the armor header; the unmutated document with the signer in the keyring must be accepted. Non-trivial: every faulted case; distinct by (bytes, keyring).",
+	Rule:  "fault enumeration over clearsigned documents: C07 documents (1..3 paragraphs, LF) signed with clearsign.Encode by an RSA entity from a per-process pool; keyring = signer only / signer among others / others only / empty for the unmutated document; the same keyring OBJECT changed in place (to other keys, to no keys) between two reads of the same bytes - the second read must fail; then with the signer in the keyring EVERY single-byte substitution (XOR 0x01, XOR 0x20, 'A'), EVERY single-byte deletion, EVERY single-byte insertion ('A', blank, newline), EVERY truncation length, splices of a foreign paragraph before the armor, inside the signed text, between text and signature, inside the signature armor and after it, replacement of the signature by that of another key or of another text, and removal of the signature block; a second complete clearsigned document appended (same signer, other signer, a replay of the first); the binary signature truncated at 8 lengths or with one byte flipped (every byte in the thorough tier, every 7th in quick) and armored afresh with a correct checksum, alone and under an altered text; a good signature followed by junk, a NUL byte, a truncated or a damaged second signature, or with a well-formed user-ID or literal-data packet or an empty / one-byte / indeterminate-length signature packet in front of or behind it, inside a fresh armor; and for EVERY generated edit: if the armor then delivers the original signature plus further bytes, reading must fail; each character of the armor's CRC-24 line replaced by other printable characters, also with an armor-END look-alike or a whole second signed document behind the damaged block (must fail: the signature is damaged, as gpgv says too). Oracle: reading (ParagraphReader.All and Decoder.Decode) ends in an error, or succeeds with Signer() == signing entity in the keyring and paragraphs == those of the signed text; success with a nil signer is allowed only when the input no longer starts with the armor header; the unmutated document with the signer in the keyring must be accepted. Non-trivial: every faulted case; distinct by (bytes, keyring).",
 	Check: checkClearsign,
 })
 
@@ -382,6 +382,16 @@ func enumerateClearsignFaults(b SignBase, thorough bool, yield func(ClearsignCas
 					if a := rearmor(append(append([]byte{}, bin...), tail...)); a != "" {
 						c := []byte(s[:sigStart] + a)
 						cases["rearmored:good-signature+"+name] = c
+					}
+				}
+				// ... or with well-formed packets that are not signatures next to it (a user ID, literal
+				// data): a signature block is signatures
+				for name, pkt := range foreignPackets {
+					if a := rearmor(append(append([]byte{}, bin...), pkt...)); a != "" {
+						cases["rearmored:good-signature+"+name] = []byte(s[:sigStart] + a)
+					}
+					if a := rearmor(append(append([]byte{}, pkt...), bin...)); a != "" {
+						cases["rearmored:"+name+"+good-signature"] = []byte(s[:sigStart] + a)
 					}
 				}
 				forgedText := strings.Replace(s[:sigStart], "\n\n", "\n\nEvil: yes\n", 1)
